@@ -23,6 +23,7 @@
   * `linearizable_sound`: the run-time linearizability decision is sound.
 -/
 import Influx.Lemmas.CacheStep
+import Influx.Model.CacheConc
 
 namespace Influx.Props.C09
 open Influx.Cache Influx.Spec.C09
@@ -249,5 +250,62 @@ theorem linearizable_sound : ∀ (fuel : Nat) (st : St) (calls : List Call),
         · exact h
       · simp only [accepted, Bool.and_eq_true]
         exact ⟨hfs, hacc⟩
+
+/-! ### concurrency: an acknowledged write racing a range delete of the same key can be lost
+
+  Step-level model `Influx.CacheConc` (lock sections of `partition.write`/`entry.add`
+  and of `DeleteRange` as atomic steps).  The key holds one value at t=10; `W` writes a
+  value at t=100; `D` deletes the range [0,50] — which does not contain t=100. -/
+
+open Influx.CacheConc in
+private def cv (t : Int) : Value := ⟨t, valueTypeFloat64, "x", 0⟩
+
+open Influx.CacheConc in
+/-- the store before the two calls: key `k` ↦ entry 0 holding the value at t=10 -/
+def concStart : Cfg := ⟨⟨[([107], 0)], [(0, [cv 10])]⟩, .start, .start⟩
+
+open Influx.CacheConc in
+/-- what a read of `k` returns once both calls have returned, for a schedule -/
+def concOutcome (sched : List Tid) : Option (Bool × List Value) :=
+  (runSched [107] [cv 100] 0 50 concStart sched).map fun c => (finished c, c.sh.read [107])
+
+open Influx.CacheConc in
+set_option maxRecDepth 100000 in
+/-- both sequential orders leave the acknowledged value readable … -/
+theorem conc_sequential_orders :
+    concOutcome [.w, .w, .d, .d, .d] = some (true, [cv 100]) ∧
+    concOutcome [.d, .d, .d, .w] = some (true, [cv 100]) := by decide
+
+open Influx.CacheConc in
+set_option maxRecDepth 100000 in
+/-- … **but the interleaving w1 d1 d2 d3 w2 loses it**: `W` fetched the entry pointer,
+    `D` emptied the entry and removed it from the store, `W` appended to the orphan.
+    Both calls returned normally; the key reads empty. -/
+theorem C09_conc_lost_write : concOutcome [.w, .d, .d, .d, .w] = some (true, []) := by decide
+
+open Influx.CacheConc in
+set_option maxRecDepth 100000 in
+/-- all ten interleavings of the two calls: the value is lost exactly when `w1` comes
+    before `d3` and `w2` after it -/
+theorem conc_all_interleavings :
+    ([[Tid.w, .w, .d, .d, .d], [.w, .d, .w, .d, .d], [.w, .d, .d, .w, .d], [.w, .d, .d, .d, .w],
+      [.d, .w, .w, .d, .d], [.d, .w, .d, .w, .d], [.d, .w, .d, .d, .w],
+      [.d, .d, .w, .w, .d], [.d, .d, .w, .d, .w], [.d, .d, .d, .w]].map fun s => (concOutcome s).map (·.2)) =
+     [some [cv 100], some [cv 100], some [cv 100], some [],
+      some [cv 100], some [cv 100], some [],
+      some [cv 100], some [], some [cv 100]] := by decide
+
+/-- the recorded history of that run — `W` and `D` overlap, then a read returns nothing —
+    is rejected by the linearizability decision, and carries the signature of the
+    known finding -/
+def lostWriteHistory : List Call :=
+  [{ thread := 0, index := 0, op := .write [([107], [cv 100])], inv := 0, ret := 3, obs := .ok },
+   { thread := 1, index := 0, op := .delrange [[107]] 0 50, inv := 1, ret := 2, obs := .ok },
+   { thread := 2, index := 0, op := .values [107], inv := 4, ret := 5, obs := .vals [] }]
+
+set_option maxRecDepth 100000 in
+theorem C09_conc_full_fails :
+    holdsOnConc [(.write [([107], [cv 10])], .ok)] lostWriteHistory = false ∧
+    lostWriteRacingDelete [(.write [([107], [cv 10])], .ok)] lostWriteHistory = true := by decide
 
 end Influx.Props.C09
